@@ -138,7 +138,7 @@ def u_sample_xconfig(ctx):
         tok_rng = loopcut.Token("self.rng")
 
         class Rng:
-            def shuffle(self_, x):
+            def shuffle(self_, x, axis=0):
                 log.append(("rng.shuffle", x))
         rng = Rng()
 
